@@ -58,6 +58,19 @@ def callees(prog: Program, fi: FuncInfo) -> List[FuncInfo]:
                         init = prog.find_method(ci, '__init__')
                         if init is not None and mi.name.endswith('.rfa'):
                             out.append(init)
+    # functions referenced as values (dispatch tables, callbacks), directly or through a module-level constant
+    for n in ast.walk(fi.node):
+        if isinstance(n, ast.Name) and isinstance(n.ctx, ast.Load):
+            r = prog.resolve_expr(fi.module, n, local_imports)
+            if r is not None and r[0] == 'func':
+                out.append(r[2])
+            elif r is not None and r[0] == 'const':
+                mi, cnode = r[2]
+                for m in ast.walk(cnode):
+                    if isinstance(m, ast.Name):
+                        rr = prog.resolve_expr(mi, m)
+                        if rr is not None and rr[0] == 'func':
+                            out.append(rr[2])
     # implicit dunder calls through subscripts on repo objects
     for n in ast.walk(fi.node):
         if isinstance(n, ast.Subscript):
